@@ -35,7 +35,10 @@ OUTSIDE = [
 ]
 FUNCTIONS_ENCODED = ["dds._api.*", "dds.introspect.*", "dds._introspect_indirect.*", "dds._retrieve_objects.*", "dds.fun_args.*", "dds._annotations.*", "dds._eval_ctx.*", "dds.structures_utils.*", "dds.store.MemoryStore.*", "dds.store.NoOpStore.*", "dds._lru_store.*"]
 LAST_DETAIL = [""]
-BOUNDS = {"quick": {}, "thorough": {}}
+BOUNDS = {
+    "quick": {"templates": ["T1 (helper + tracked variable)", "T3 (const / default / keyword keeps)", "T4 (run-time argument keep)", "T5 (class, two methods)", "T6 (aliases, second module, non-accepted module)", "T7 (higher-order reference)", "T10 (module-alias variable, multi-line keep, lambda, nested def, dds_function)", "T1main (__main__ placement)"], "history": "2 steps (T1: one 3-step revert)", "leaves": "int: all 32-bit values; str: <= 2 ASCII chars; bool; float: finite reals; list / tuple / dict with one symbolic int; None-or-int; 3 path witnesses", "stores": ["memory", "noop", "cache-wrapped memory"], "entry styles": ["direct call", "dds.eval", "dds.keep"]},
+    "thorough": {"templates": "as quick", "history": "2-3 steps with restarts for every leaf type of T1 and for T5 T6 T7 T4", "leaves": "as quick + str <= 3 ASCII, str <= 1 any code point", "stores": "noop and cache-wrapped for T5 T6 T7 too"},
+}
 
 LEAF_TYPES = {
     # name -> (parameter list [(suffix, type, precondition template)], builder expression over the parameters)
